@@ -25,6 +25,7 @@ import (
 	"fmt"
 	"github.com/nuts-foundation/go-stoabs"
 	"github.com/nuts-foundation/nuts-node/core"
+	"github.com/nuts-foundation/nuts-node/core/verifhook"
 	"github.com/nuts-foundation/nuts-node/crypto/hash"
 	"github.com/nuts-foundation/nuts-node/network/dag/tree"
 	"github.com/nuts-foundation/nuts-node/network/log"
@@ -167,6 +168,7 @@ func (s *state) Add(ctx context.Context, transaction Transaction, payload []byte
 		// TX already present on DAG, nothing to do
 		return nil
 	}
+	verifhook.Point("dag.add.verified", transaction.Ref())
 
 	return s.db.Write(ctx, func(tx stoabs.WriteTx) error {
 		// TX already present on DAG, nothing to do
@@ -179,6 +181,7 @@ func (s *state) Add(ctx context.Context, transaction Transaction, payload []byte
 
 		// control the afterCommit hooks
 		txAdded = true
+		verifhook.Point("dag.add.inwrite", transaction.Ref())
 
 		if payload != nil {
 			emitPayloadEvent = true
@@ -204,8 +207,10 @@ func (s *state) Add(ctx context.Context, transaction Transaction, payload []byte
 		return s.updateState(tx, transaction)
 	}, stoabs.OnRollback(func() {
 		log.Logger().Warn("Reloading the XOR and IBLT trees due to a DB transaction Rollback")
+		verifhook.Point("dag.add.rollback", transaction.Ref())
 		s.loadState(ctx)
 	}), stoabs.AfterCommit(func() {
+		verifhook.Point("dag.add.committed", transaction.Ref(), txAdded)
 		if txAdded {
 			s.notify(txEvent)
 			if emitPayloadEvent {
